@@ -133,7 +133,9 @@ def run(rep, tier, seed):
         if c["off"]:
             extra += f' text-offset="{q(c["off"])}"'
         if c["dx"] or c["dy"]:
-            extra += rnd.choice([f' text-dx="{q(c["dx"])}" text-dy="{q(c["dy"])}"', f' text-dxy="{q(c["dx"])} {q(c["dy"])}"'])
+            # text-dx / text-dy replace the matching component of text-dxy
+            extra += rnd.choice([f' text-dx="{q(c["dx"])}" text-dy="{q(c["dy"])}"', f' text-dxy="{q(c["dx"])} {q(c["dy"])}"',
+                                 f' text-dxy="99 {q(c["dy"])}" text-dx="{q(c["dx"])}"', f' text-dy="{q(c["dy"])}" text-dxy="{q(c["dx"])} -77"'])
         xml = "<svg>" + ref.replace("/>", extra + "/>", 1) + "</svg>"
         pcases.append({"k": f"c19p-{j}", "xml": xml, "case": c, "key": xml})
 
